@@ -149,7 +149,10 @@ def extract(repo="/repo", scope="quick", target_dir=None, verbose=True):
             if d.endswith(".lock"):
                 continue
             if d not in keep:
-                age = time.time() - os.path.getmtime(os.path.join(facts_root, d))
+                try:
+                    age = time.time() - os.path.getmtime(os.path.join(facts_root, d))
+                except OSError:
+                    continue
                 if age > 1800:
                     shutil.rmtree(os.path.join(facts_root, d), ignore_errors=True)
                     try:
